@@ -26,11 +26,11 @@ theorem utf8Split_prefix_of_valid {u w : Bytes} (h : V (u ++ w)) : ∃ a p, utf8
 def LV (s : HtmlSt) (R : Bytes) : Prop := ∃ T p, s.last = T ++ p ∧ V T ∧ V (p ++ R)
 
 section
-variable {tk : Tokenize} (hl : Lossless tk) (hv : TokValid tk) (ev : Bytes → Bytes → Bool)
+variable {tk : Tokenize} (hl : LosslessAll tk) (hv : TokValidAll tk) (ev : Bytes → Bytes → Bool)
 include hl hv
 
 /-- one call on a piece of a valid stream does not fail, and the invariant moves on -/
-theorem filterHtml_ok_of_LV (s : HtmlSt) (x R : Bytes) (h : LV s (x ++ R)) :
+theorem filterHtml_ok_of_LV (s : HtmlSt) (x R : Bytes) (hc : Ctx s.ctx) (h : LV s (x ++ R)) :
     ∃ s1 o, filterHtml tk ev s x = some (s1, o) ∧ LV s1 R := by
   obtain ⟨T, p, hlast, hT, hpR⟩ := h
   have hpx : V ((p ++ x) ++ R) := by simpa [List.append_assoc] using hpR
@@ -40,20 +40,9 @@ theorem filterHtml_ok_of_LV (s : HtmlSt) (x R : Bytes) (h : LV s (x ++ R)) :
     rfl
   obtain ⟨ha', hap⟩ := utf8Split_spec hsp
   have hd : V (T ++ a') := V_append hT ha'
-  unfold filterHtml
-  rw [hsp2]
+  rw [filterHtml_view, hsp2]
   simp only
-  have hrest := V_rest hl hv hd
-  have hheld : V (splitHeld (tk (T ++ a')).1).2 := by
-    rcases splitHeld_cases (tk (T ++ a')).1 with hc | ⟨t, _, hts, hraw⟩
-    · rw [hc]; exact V_nil
-    · rw [hraw]; exact hv _ hd t (by rw [hts]; simp)
-  generalize splitHeld (tk (T ++ a')).1 = sh at hheld
-  obtain ⟨todo, held⟩ := sh
-  simp only at hheld ⊢
-  generalize todo.foldl (stepTok tk ev) (s, []) = fr
-  obtain ⟨sf, outf⟩ := fr
-  refine ⟨_, _, rfl, held ++ (tk (T ++ a')).2, p', by simp [List.append_assoc], V_append hheld hrest, ?_⟩
+  refine ⟨_, _, rfl, (view tk s.ctx (T ++ a')).tail, p', rfl, view_tail_V hl hv hc hd, ?_⟩
   -- a' ++ p' ++ R = p ++ x ++ R is valid and a' is valid
   have : V (a' ++ (p' ++ R)) := by
     rw [← List.append_assoc, hap]; exact hpx
@@ -64,18 +53,18 @@ end
 variable {D E : Type}
 
 section
-variable {tk : Tokenize} (hl : Lossless tk) (hv : TokValid tk) (ev : Bytes → Bytes → Bool) (codec : Codec D E)
+variable {tk : Tokenize} (hl : LosslessAll tk) (hv : TokValidAll tk) (ev : Bytes → Bytes → Bool) (codec : Codec D E)
 include hl hv
 
 /-- the html stage over the pieces of a valid stream: no call fails, every output is valid -/
-theorem seqRunL_ok : ∀ (ps : List Bytes) (s : HtmlSt) (R : Bytes), HV s → LV s (ps.flatten ++ R) →
-    ∃ s1 os, seqRunL tk ev s ps = some (s1, os) ∧ HV s1 ∧ LV s1 R ∧ V os.flatten
+theorem seqRunL_ok : ∀ (ps : List Bytes) (s : HtmlSt) (R : Bytes), (HV s ∧ Ctx s.ctx) → LV s (ps.flatten ++ R) →
+    ∃ s1 os, seqRunL tk ev s ps = some (s1, os) ∧ (HV s1 ∧ Ctx s1.ctx) ∧ LV s1 R ∧ V os.flatten
   | [], s, R, hh, hlv => ⟨s, [], rfl, hh, by simpa using hlv, V_nil⟩
   | p :: ps, s, R, hh, hlv => by
     have hlv' : LV s (p ++ (ps.flatten ++ R)) := by simpa [List.append_assoc] using hlv
-    obtain ⟨s1, o, hf, hlv1⟩ := filterHtml_ok_of_LV hl hv ev s p _ hlv'
-    obtain ⟨hh1, ho⟩ := filterHtml_V hl hv ev s s1 p o hh hf
-    obtain ⟨s2, os, e2, h2, l2, v2⟩ := seqRunL_ok ps s1 R hh1 hlv1
+    obtain ⟨s1, o, hf, hlv1⟩ := filterHtml_ok_of_LV hl hv ev s p _ hh.2 hlv'
+    obtain ⟨hh1a, hh1b, ho⟩ := filterHtml_V hl hv ev s s1 p o hh.1 hh.2 hf
+    obtain ⟨s2, os, e2, h2, l2, v2⟩ := seqRunL_ok ps s1 R ⟨hh1a, hh1b⟩ hlv1
     refine ⟨s2, o :: os, by simp [seqRunL, hf, e2], h2, l2, ?_⟩
     simp only [List.flatten_cons]
     exact V_append ho v2
@@ -124,11 +113,11 @@ theorem stTotal_ok (st : Stage D E) (ps : List Bytes) (fin : Option Bytes)
       obtain ⟨T, p, hl1, hT, hp⟩ := l1
       have hlast1 : V s1.last := by rw [hl1]; exact V_append hT (by simpa using hp)
       rw [endHtml_eq]
-      exact V_append v1 (V_append (V_flat_of_HV h1) hlast1)
+      exact V_append v1 (V_append (V_flat_of_HV h1.1) hlast1)
     | some d =>
       have l1' : LV s1 (d ++ []) := by simpa using l1
-      obtain ⟨s2, o2, hf2, l2⟩ := filterHtml_ok_of_LV hl hv ev s1 d [] l1'
-      obtain ⟨h2, ho2⟩ := filterHtml_V hl hv ev s1 s2 d o2 h1 hf2
+      obtain ⟨s2, o2, hf2, l2⟩ := filterHtml_ok_of_LV hl hv ev s1 d [] h1.2 l1'
+      obtain ⟨h2, _, ho2⟩ := filterHtml_V hl hv ev s1 s2 d o2 h1.1 h1.2 hf2
       refine ⟨_, os, .html s2, o2 ++ endHtml s2, hfe, by simp [Stage.endWith, Stage.filter, hf2, Stage.end], ?_⟩
       obtain ⟨T, p, hl2, hT, hp⟩ := l2
       have hlast2 : V s2.last := by rw [hl2]; exact V_append hT (by simpa using hp)
